@@ -351,17 +351,38 @@ func TestC04Runs(t *testing.T) {
 		rendezvous := make(chan struct{})
 		var once sync.Once
 		var rendezvousOK atomic.Bool
+		// ... and so do `conc` iterations that arrive once the run is under way (60 ms in):
+		// the workers are all still usable after they have been through iterations of every kind,
+		// including ones whose cleanups register further cleanups (every profile keeps triggering for 250 ms or more)
+		var arrived2 atomic.Int64
+		rendezvous2 := make(chan struct{})
+		var once2 sync.Once
+		var rendezvous2OK atomic.Bool
+		runStart := time.Now()
 		scenario := func(*f1testing.T) f1testing.RunFn {
 			return func(t *f1testing.T) {
 				ob.enter(t)
 				defer ob.leave(t)
+				n := arrived.Add(1)
+				if n%3 == 1 {
+					t.Cleanup(func() { t.Cleanup(func() {}) })
+				}
 				// the first `conc` iterations only return once `conc` of them overlap
-				if arrived.Add(1) >= int64(conc) {
+				if n >= int64(conc) {
 					once.Do(func() { rendezvousOK.Store(true); close(rendezvous) })
 				}
 				select {
 				case <-rendezvous:
 				case <-time.After(3 * time.Second):
+				}
+				if time.Since(runStart) > 60*time.Millisecond && !rendezvous2OK.Load() {
+					if arrived2.Add(1) >= int64(conc) {
+						once2.Do(func() { rendezvous2OK.Store(true); close(rendezvous2) })
+					}
+					select {
+					case <-rendezvous2:
+					case <-time.After(2 * time.Second):
+					}
 				}
 			}
 		}
@@ -371,13 +392,13 @@ func TestC04Runs(t *testing.T) {
 			flags["rate"] = strconv.Itoa(4*conc) + "/10ms"
 			flags["distribution"] = "none"
 		case "staged":
-			flags["stages"] = "50ms:" + strconv.Itoa(5*conc) + ",100ms:" + strconv.Itoa(5*conc)
+			flags["stages"] = "50ms:" + strconv.Itoa(5*conc) + ",250ms:" + strconv.Itoa(5*conc)
 			flags["iterationFrequency"] = "10ms"
 			flags["distribution"] = "none"
 		case "ramp":
 			flags["start-rate"] = strconv.Itoa(2*conc) + "/10ms"
 			flags["end-rate"] = strconv.Itoa(4*conc) + "/10ms"
-			flags["ramp-duration"] = "100ms"
+			flags["ramp-duration"] = "280ms"
 			flags["distribution"] = "none"
 		case "gaussian":
 			flags["volume"] = strconv.Itoa(2000 * conc)
@@ -398,7 +419,7 @@ func TestC04Runs(t *testing.T) {
 			continue
 		}
 		o.Count("mode", mode)
-		o.Case("c04_ok", []string{kit.I(ob.hwm.Load()), kit.I(conc), kit.B(ob.shared.Load()), kit.B(rendezvousOK.Load())}, "T", "run", mode, "nt")
+		o.Case("c04_ok", []string{kit.I(ob.hwm.Load()), kit.I(conc), kit.B(ob.shared.Load()), kit.B(rendezvousOK.Load() && rendezvous2OK.Load())}, "T", "run", mode, "nt")
 		o.Case("c03_ok", []string{kit.Ints(ob.idsDesc()), "0", "F"}, "T", "run", mode, "ids")
 	}
 }
@@ -605,6 +626,9 @@ func TestC03Runs(t *testing.T) {
 		cfg := runkit.Config{Mode: mode, Flags: flags, Scenario: scenario, Ctx: context.Background(),
 			Opts: options.RunOptions{MaxDuration: 3 * time.Second, Concurrency: conc, MaxIterations: limit, IgnoreDropped: true}}
 		if mode == "file" {
+			// the limit binds in a rate stage (the first or the third) and a users stage follows it
+			limit = uint64(kit.Pick(r, r.Range(1, 60), r.Range(1, 60), r.Range(120, 400)))
+			cfg.Opts.MaxIterations = limit
 			yaml = fileYaml(limit)
 			cfg.FileArg = dir + "/c03_" + strconv.Itoa(i) + ".yaml"
 			_ = writeFile(cfg.FileArg, yaml)
